@@ -9,7 +9,7 @@ from . import c01
 PROP = "C14"
 LEVEL = "exploration"
 DESIGN_REF = "DESIGN.md 7 (C14)"
-BUDGETS = {"quick": 45.0, "thorough": 900.0}
+BUDGETS = {"quick": 35.0, "thorough": 900.0}
 CHUNK = 4
 MINIMISE_BUDGET = 150
 ORACLES = ("C14.",)
